@@ -28,6 +28,10 @@ def build_case(cid, rng, selector, unimock=False, force_async=False, no_send=Fal
     want_async = force_async or rng.random() < 0.5
     with_at = dyn and want_async
     t = tg.random_trait(rng, "Tr", dyn_safe=dyn, allow_async=(want_async or not dyn), with_async_trait=with_at, uninferable=True, allow_ghost=True)
+    for m_ in t.methods:
+        # a fifth of the methods are provided ones (default body): forwarded to the provider's own implementation like any other
+        if rng.random() < 0.2 and "impl " not in m_.ret_text():
+            m_.provided = True
     if not want_async:
         for m in t.methods:
             m.is_async = False
